@@ -182,14 +182,22 @@ class CQN(RLAlgorithm):
         """
         obs = self.preprocess_observation(obs)
 
+        # Number of observations in the batch (dict / tuple observations hold one tensor per member)
+        if isinstance(obs, dict):
+            batch_size = len(next(iter(obs.values())))
+        elif isinstance(obs, tuple):
+            batch_size = len(obs[0])
+        else:
+            batch_size = len(obs)
+
         # epsilon-greedy
         if random.random() < epsilon:
             if action_mask is None:
-                action = np.random.randint(0, self.action_dim, size=len(obs))
+                action = np.random.randint(0, self.action_dim, size=batch_size)
             else:
                 action = np.argmax(
                     (
-                        np.random.uniform(0, 1, (len(obs), self.action_dim))
+                        np.random.uniform(0, 1, (batch_size, self.action_dim))
                         * action_mask
                     ),
                     axis=1,
